@@ -247,3 +247,45 @@ Proof.
   intros n k Hne. unfold stray. destruct (default ∅ (cl_store c !! n) !! k) as [x|] eqn:Ex; [|reflexivity].
   exfalso. apply Hne. symmetry. apply (cr_own _ _ R n k). rewrite Ex. eauto.
 Qed.
+
+(* ---- unknown channels *)
+Lemma open_writer_unknown c id gw keys auto k :
+  k ∈ keys -> ~ k ∈ cl_chans c -> dstep c (OpenW id gw keys auto) = (c, DMissing).
+Proof.
+  intros Hin Hnot. cbn [dstep]. destruct keys as [|k0 keys']; [inversion Hin|].
+  destruct (forallb (fun k1 => memb k1 (cl_chans c)) (k0 :: keys')) eqn:E; [|reflexivity].
+  exfalso. apply Hnot. rewrite forallb_forall in E. apply memb_true, E, elem_of_list_In, Hin.
+Qed.
+Lemma open_iterator_unknown chans keys k :
+  k ∈ keys -> (~ k ∈ chans \/ is_free_key k = true) -> iter_open chans keys <> IOk.
+Proof.
+  intros Hin Hbad. unfold iter_open. destruct keys as [|k0 keys']; [inversion Hin|].
+  destruct (existsb is_free_key (k0 :: keys')) eqn:Ef; [discriminate|].
+  destruct (forallb (fun k1 => memb k1 chans) (k0 :: keys')) eqn:E; [|discriminate].
+  exfalso. destruct Hbad as [Hnot|Hfree].
+  - apply Hnot. rewrite forallb_forall in E. apply memb_true, E, elem_of_list_In, Hin.
+  - assert (existsb is_free_key (k0 :: keys') = true); [|congruence].
+    apply existsb_exists. exists k. split; [apply elem_of_list_In, Hin|exact Hfree].
+Qed.
+
+(* ---- a concrete script: three nodes, a gateway that holds none of the channels *)
+Definition x_t1 := new_key 1 2. Definition x_d1 := new_key 1 3.
+Definition x_t3 := new_key 3 2. Definition x_d3 := new_key 3 3.
+Definition x_free := new_key node_free 5.
+Definition x_chans := [x_t1; x_d1; x_t3; x_d3; x_free].
+Definition x_ops : list dop :=
+  [OpenW 0 2 [x_t1; x_d1; x_t3; x_d3; x_free] false;
+   WriteW 0 [(x_t1, [10; 11]); (x_d1, [5; 6]); (x_free, [9])];
+   WriteW 0 [(x_d3, [1; 2; 3]); (x_t3, [10; 11; 12])];
+   CommitW 0;
+   WriteW 0 [(x_t1, [12]); (x_d1, [7])];
+   CloseW 0;
+   OpenW 1 1 [x_t3; 77] true;
+   OpenW 2 3 [x_t1; x_d1] true;
+   WriteW 2 [(x_d1, [8]); (x_t1, [20])]].
+Lemma x_facts :
+  let c := drun (Cluster x_chans ∅ ∅) x_ops in
+  cluster_read c x_t1 = [10; 11; 20] /\ cluster_read c x_d1 = [5; 6; 8] /\
+  cluster_read c x_d3 = [1; 2; 3] /\ stray c 2 x_t1 = [] /\ stray c 3 x_d1 = [] /\
+  dresults (Cluster x_chans ∅ ∅) x_ops = [DOk; DOk; DOk; DAck; DOk; DOk; DMissing; DOk; DOk].
+Proof. vm_compute. repeat split; reflexivity. Qed.
